@@ -2796,7 +2796,22 @@ class FileSet:
 
         if end_args:
             end_args = {**start_args, **end_args}
-            end_date = datetime(**end_args)
+            try:
+                end_date = datetime(**end_args)
+            except ValueError:
+                # The day of the end might not exist in the month / year of
+                # the start (the 31st, a leap day). Then it can only belong to
+                # the next one.
+                months = {
+                    self._temporal_resolution["month"]: 1,
+                    self._temporal_resolution["year"]: 12,
+                }.get(self._end_time_superior, None)
+                if months is None:
+                    raise
+                year, month = divmod(
+                    12*end_args["year"] + end_args["month"] - 1 + months, 12)
+                end_date = datetime(
+                    **{**end_args, "year": year, "month": month + 1})
 
             # Sometimes the filename does not explicitly provide the complete
             # end date. Imagine there is only hour and minute given, then day
